@@ -13,8 +13,8 @@ import (
 //   - the five reference / CTE regex literals and validIdentifierPattern (internal/api/query.go)
 //   - skipPrefixes, arcInvalidIdentifierSentinel, buildReadParquetOptions' literal
 //   - fromKeywordFunctions (internal/sql/mask.go)
-//   - the transform-cache key construction in getTransformedSQL (base `sql`, header case
-//     `headerDB + <sep> + sql`) and the literals of its two short circuits
+//   - the transform-cache key construction in getTransformedSQL (`headerDB + <sep> + sql`, one unconditional
+//     definition) and the literals of its two short circuits
 //   - the literals of isSingleTableQuery / convertSingleTableQuery / isDotOrCallAt
 //   - the ORDER in which the reference patterns are applied in convertSQLToStoragePaths and in
 //     convertSQLToStoragePathsWithHeaderDB, and that CTE/skip/dot-or-call checks guard only the simple passes
@@ -116,7 +116,8 @@ func c16(repo string, out *fg.Out) error {
 	if gts == nil {
 		return fmt.Errorf("method QueryHandler.getTransformedSQL not found")
 	}
-	keyBase, keySep, keyShape := "", "", ""
+	// cacheKey := headerDB + <sep literal> + sql   (single, unconditional definition since 12df811)
+	keySep, keyShape, keyAssigns := "", "", 0
 	ast.Inspect(gts, func(n ast.Node) bool {
 		as, ok := n.(*ast.AssignStmt)
 		if !ok || len(as.Lhs) != 1 || len(as.Rhs) != 1 {
@@ -126,27 +127,22 @@ func c16(repo string, out *fg.Out) error {
 		if !ok || lhs.Name != "cacheKey" {
 			return true
 		}
-		switch r := as.Rhs[0].(type) {
-		case *ast.Ident:
-			keyBase = r.Name
-		case *ast.BinaryExpr:
-			// (headerDB + ":") + sql
-			if r.Op == token.ADD {
-				if l, ok := r.X.(*ast.BinaryExpr); ok && l.Op == token.ADD {
-					a, aok := l.X.(*ast.Ident)
-					sep, sok := unq(l.Y)
-					b, bok := r.Y.(*ast.Ident)
-					if aok && sok && bok {
-						keySep = sep
-						keyShape = a.Name + "+sep+" + b.Name
-					}
+		keyAssigns++
+		if r, ok := as.Rhs[0].(*ast.BinaryExpr); ok && r.Op == token.ADD {
+			if l, ok := r.X.(*ast.BinaryExpr); ok && l.Op == token.ADD {
+				a, aok := l.X.(*ast.Ident)
+				sep, sok := unq(l.Y)
+				b, bok := r.Y.(*ast.Ident)
+				if aok && sok && bok {
+					keySep = sep
+					keyShape = a.Name + "+sep+" + b.Name
 				}
 			}
 		}
 		return true
 	})
-	if keyBase != "sql" || keyShape != "headerDB+sep+sql" {
-		return fmt.Errorf("getTransformedSQL: expected `cacheKey := sql` and `cacheKey = headerDB + <lit> + sql`, found base=%q shape=%q", keyBase, keyShape)
+	if keyAssigns != 1 || keyShape != "headerDB+sep+sql" {
+		return fmt.Errorf("getTransformedSQL: expected exactly one assignment `cacheKey := headerDB + <lit> + sql`, found %d assignment(s), shape=%q", keyAssigns, keyShape)
 	}
 	// the cache is consulted with exactly that key
 	if len(fg.CallsNamed(gts, "Get")) != 1 || len(fg.CallsNamed(gts, "Set")) != 1 {
@@ -299,6 +295,7 @@ func c16(repo string, out *fg.Out) error {
 	fmt.Fprintf(w, "def sentinel : String := %s\n", fg.LeanStr(sentinel))
 	fmt.Fprintf(w, "def readParquetOptions : String := %s\n", fg.LeanStr(opts))
 	fmt.Fprintf(w, "def cacheKeySep : String := %s\n", fg.LeanStr(keySep))
+	fmt.Fprintf(w, "def cacheKeyShape : String := %s\n", fg.LeanStr(keyShape))
 	fmt.Fprintf(w, "def shortCircuitLits : List String := %s\n", leanList(short))
 	fmt.Fprintf(w, "def singleTableLits : List String := %s\n", leanList([]string{istCount[0], istContains[0], istTrim[0], cstIndex[0]}))
 	fmt.Fprintf(w, "def dotOrCallTrim : String := %s\n", fg.LeanStr(docTrim[0]))
